@@ -173,7 +173,7 @@ def majority_vote_byte_scan(relfilepath, fileslist, outpath, blocksize=65535, de
                 break
             # Else if there's only one file, just copy the file's content over
             elif entries.count(b('')) == (len(fileshandles) - 1):
-                final_entry = entries[0]
+                final_entry = [entry for entry in entries if entry][0]  # the only non-empty entry (not necessarily the first file)
 
             # Else, do the majority vote
             else:
